@@ -1,6 +1,8 @@
 import AvoVerif.Props.C05
 import AvoVerif.Props.C05Tables
 import AvoVerif.Props.C05Build
+import AvoVerif.Props.C05Judge
+import AvoVerif.Props.C05Line
 #print axioms Avo.AsmText.parseSigned_fmtPlusD
 #print axioms Avo.AsmText.parseSigned_fmtD
 #print axioms Avo.AsmText.parseHex_fmtHex
@@ -20,6 +22,9 @@ import AvoVerif.Props.C05Build
 #print axioms Avo.AsmText.readImm_asm
 #print axioms Avo.AsmText.signExtend32_eq
 #print axioms Avo.AsmText.asmImm_value_partial
+#print axioms Avo.AsmText.asmImm_spelling
+#print axioms Avo.AsmText.asmImm_preserves
+#print axioms Avo.AsmText.asmImm_truncates
 #print axioms Avo.AsmText.immWanted_faithful
 #print axioms Avo.AsmText.asmImm_differs_without_guard
 #print axioms Avo.AsmText.asmImm_fails_at_F6
@@ -28,7 +33,24 @@ import AvoVerif.Props.C05Build
 #print axioms Avo.AsmText.regNames_ok
 #print axioms Avo.AsmText.parseOp_asm_regs
 #print axioms Avo.AsmText.line_roundtrip_regs
-#print axioms Avo.AsmText.const_verbs
+#print axioms Avo.AsmText.const_asm_samples
+#print axioms Avo.AsmText.const_asm_samples_cover
 #print axioms Avo.AsmText.reg_anchors
 #print axioms Avo.AsmText.instr_build_eq
 #print axioms Avo.AsmText.instr_build_first_match
+#print axioms Avo.AsmJudge.regMatch_sound
+#print axioms Avo.AsmJudge.addrRegMatch_sound
+#print axioms Avo.AsmJudge.baseDispErr_sound
+#print axioms Avo.AsmJudge.memMatch_sound
+#print axioms Avo.AsmJudge.immMatch_sound
+#print axioms Avo.AsmJudge.immAgrees_value
+#print axioms Avo.AsmJudge.opMatch_sound
+#print axioms Avo.AsmJudge.matchSeq_sound
+#print axioms Avo.AsmJudge.judgeO_sound
+#print axioms Avo.AsmJudge.judge_ok_iff
+#print axioms Avo.AsmJudge.judge_sound
+#print axioms Avo.Drv.C05.readsBack_sound
+#print axioms Avo.Drv.C05.lineOperandsErr_sound
+#print axioms Avo.Drv.C05.lineErr_sound
+#print axioms Avo.Drv.C05.judgeLine_ok_iff
+#print axioms Avo.Drv.C05.judgeLine_sound
